@@ -36,7 +36,7 @@ TECHNIQUE = "relational symbolic execution of the real generator stages run twic
 needs_reach = False
 EXTRA_STUBS = genh.EXTRA_STUBS
 GROUP_BY_QUERY = True
-REQUIRED_WITNESSES = ['orders_differ', 'same_order', 'firewall', 'vulnerability', 'glue_twice', 'audit_clean']
+REQUIRED_WITNESSES = ['orders_differ', 'same_order', 'firewall', 'vulnerability', 'glue_twice', 'bench_params', 'audit_clean']
 STUBS = c15.STUBS + ["set (generator module) -> name set iterated in a solver-chosen total order per simulated process"]
 ASSUMPTIONS = ["numpy's RandomState is a function of its seed in every process (trusted)",
                "entropy audit: no source other than the modelled np.random functions and set iteration in the generator (checked mechanically on every run; rendering is out of scope)"]
@@ -140,7 +140,12 @@ import numpy as np
 import nasim
 out = {}
 for name, seed in %(cases)r:
-    env = nasim.make_benchmark(name, seed=seed)
+    if name.startswith('gen:'):
+        kw = dict(exploit_probs=None, privesc_probs=None) if 'probs' in name else {}
+        kw.update(uniform=('uniform' in name), random_goal=('rgoal' in name))
+        env = nasim.generate(7, 3, num_os=2, num_processes=2, restrictiveness=2, seed=seed, **kw)
+    else:
+        env = nasim.make_benchmark(name, seed=seed)
     sc = env.scenario
     h = hashlib.sha256()
     h.update(repr(sorted((k, sorted(v)) for k, v in sc.firewall.items())).encode())
@@ -187,6 +192,8 @@ def queries(tier, seed=0):
                            defs=0 if S == 2 else 3, concrete_hosts=(S == 3)))
     qs.append(dict(stage='vulnerability', n=3, S=2, O=2, P=2, defs=0))
     qs.append(dict(stage='glue_twice', n=3, S=1, O=1, P=1))
+    for name in ('tiny-gen', 'medium-gen'):
+        qs.append(dict(stage='bench_params', kind='bench_params', name=name))
     return qs
 
 
@@ -236,6 +243,11 @@ def _hosts_plain(hosts):
 
 
 def run(src, q):
+    if q['stage'] == 'bench_params':
+        from . import c19
+        r = c19.run_bench(src, q)
+        r.capped = False
+        return r
     r = dyn.Rec()
     r.q = q
     st = q['stage']
@@ -323,6 +335,9 @@ def obligations(r):
     if r.capped:
         return []
     st = r.q['stage']
+    if st == 'bench_params':
+        from . import c19
+        return c19.obligations(r)
     if st == 'glue_twice':
         a, b = (_scenario_plain(x) for x in r.outs)
         return [('same_parameters_and_stream_give_same_scenario', _eq_struct(a, b))]
@@ -333,6 +348,8 @@ def witnesses(r):
     if r.capped:
         return []
     st = r.q['stage']
+    if st == 'bench_params':
+        return ['bench_params']
     if st == 'glue_twice':
         return ['glue_twice']
     out = [st]
@@ -346,6 +363,9 @@ def witnesses(r):
 
 
 def describe(r):
+    if r.q['stage'] == 'bench_params':
+        from . import c19
+        return c19.describe(r)
     return dict(stage=r.q['stage'], outputs=[str(o)[:400] for o in r.outs])
 
 
@@ -379,7 +399,7 @@ print(json.dumps(out))
 def replay_confirm(failure):
     """the real stage (real set, real numpy) with the model's inputs and stream, in sub-processes
     with different PYTHONHASHSEED values"""
-    if failure['q']['stage'] == 'glue_twice' or failure['obligation'] == 'no_exception':
+    if failure['q']['stage'] in ('glue_twice', 'bench_params') or failure['obligation'] == 'no_exception':
         from .. import replay as _replay
         mod = sys.modules[__name__]
         saved = mod.replay_confirm
@@ -417,7 +437,8 @@ def main(tier, seed):
                                              excluded=AUDIT_EXCLUDE, modelled=sorted(MODELLED_RANDOM))
         if hits:
             # unknown entropy source: outside what the stubs model -> confirm concretely or stop
-            cases = [('tiny-gen', 1), ('small-gen', 2), ('medium-gen', 3), ('tiny', 4), ('small', 5)]
+            cases = [('tiny-gen', 1), ('small-gen', 2), ('medium-gen', 3), ('tiny', 4), ('small', 5),
+                     ('gen:probs', 6), ('gen:uniform', 7), ('gen:rgoal', 8), ('gen:probs-uniform-rgoal', 9)]
             d1 = cross_process_digests(cases)
             vals = {k: set(d[k] for d in d1.values()) for k in d1[0]}
             differing = [k for k, v in vals.items() if len(v) > 1]
